@@ -135,11 +135,41 @@ fn check(case: &LedgerCase, obs: &mut Obs) -> Verdict {
     for (name, tf, _) in &pairs {
         for r in tf.rows.iter().chain(std::iter::once(&tf.footer)) { if r.is_empty() { continue; } if !recs.contains(r) { return Verdict::Fail(format!("{name}: CSV output lacks the render model's row {:?}\n{csv}", r)); } }
     }
+    // (4) --csv-output-dir: each file holds exactly its table (header, rows, footer, notes, errors - nothing else), whatever an earlier
+    // run left in the directory: a quarter of the cases write the longer full-precision tables first and the default ones over them
+    if csv.bytes().map(|b| b as u32).sum::<u32>() % 4 == 0 {
+        use crate::observe::run_csv_dir_runs;
+        let dir_err = |e: RunErr| match e { RunErr::Panic(p) => classify_panic(&p, csv), RunErr::Run(e) | RunErr::BadInit(e) => Verdict::Fail(format!("--csv-output-dir run failed: {e}\n{csv}")) };
+        let fresh = match run_csv_dir_runs(&[(&files, false, true)], &opts) { Ok((f, _)) => f, Err(e) => return dir_err(e) };
+        let recs_of = |text: &str| -> Vec<Vec<String>> { csv::ReaderBuilder::new().has_headers(false).flexible(true).from_reader(text.as_bytes()).records().flatten().map(|r| r.iter().map(|s| s.to_string()).collect()).collect() };
+        let mut got: Vec<Vec<Vec<String>>> = fresh.iter().map(|(_, t)| recs_of(t)).collect();
+        let mut want: Vec<Vec<Vec<String>>> = pairs.iter().map(|(_, _, td)| {
+            let n = td.header.len();
+            let pad = |first: String| { let mut v = vec![String::new(); n]; v[0] = first; v };
+            let mut v = vec![td.header.clone()];
+            v.extend(td.rows.iter().cloned());
+            if !td.footer.is_empty() { v.push(td.footer.clone()); }
+            v.extend(td.notes.iter().map(|x| pad(x.clone())));
+            v.extend(td.errors.iter().map(|x| pad(format!("[!] {x}"))));
+            v
+        }).collect();
+        got.sort(); want.sort();
+        if got != want {
+            let ix = got.iter().zip(want.iter()).position(|(a, b)| a != b).unwrap_or(0);
+            return Verdict::Fail(format!("--csv-output-dir: the files do not hold exactly the tables of the render model ({} files, {} tables); first difference:\n   file : {:?}\n   table: {:?}\n{csv}", got.len(), want.len(), got.get(ix), want.get(ix)));
+        }
+        let again = match run_csv_dir_runs(&[(&files, true, true), (&files, false, true)], &opts) { Ok((f, _)) => f, Err(e) => return dir_err(e) };
+        if again != fresh {
+            let d = again.iter().zip(fresh.iter()).find(|(a, b)| a != b).map(|(a, b)| format!("{}:\n--- over an earlier full-precision run\n{}\n--- into an empty directory\n{}", a.0, a.1, b.1)).unwrap_or_else(|| "different set of files".into());
+            return Verdict::Fail(format!("--csv-output-dir: the files depend on what an earlier run left in the directory: {d}\n{csv}"));
+        }
+        obs.class("csv-dir-rewritten");
+    }
     Verdict::Pass
 }
 
 pub fn def() -> PropDef {
-    let mut d = PropDef::new("C06", "generated multi-security, multi-year, multi-affiliate inputs (a third with one rejected security) rendered with and without --print-full-values and with --total-costs: (1) per error-free security the yearly figures = exact sum of its rows' full-precision gain cells by SETTLEMENT year, total = sum of years, years shown = years with a gain-bearing row; aggregate year = sum over error-free securities, 'Since inception' = sum of years (1e-9); (2) every money figure ($x, -$x, +$x, (x CUR)) of the default rendering equals the corresponding full-precision figure rounded half away from zero to cents, figure by figure, in every table incl. costs; (3) text and CSV front ends show the render model's cells. Non-trivial = >= 2 securities and >= 2 years with gains, or a row whose trade and settlement years differ, or a figure at a .xx5 midpoint. Distinct = distinct case content.");
+    let mut d = PropDef::new("C06", "generated multi-security, multi-year, multi-affiliate inputs (a third with one rejected security) rendered with and without --print-full-values and with --total-costs: (1) per error-free security the yearly figures = exact sum of its rows' full-precision gain cells by SETTLEMENT year, total = sum of years, years shown = years with a gain-bearing row; aggregate year = sum over error-free securities, 'Since inception' = sum of years (1e-9); (2) every money figure ($x, -$x, +$x, (x CUR)) of the default rendering equals the corresponding full-precision figure rounded half away from zero to cents, figure by figure, in every table incl. costs; (3) text and CSV front ends show the render model's cells; (4) for a quarter of the cases the real --csv-output-dir front end: each file holds exactly its table (header, rows, footer, notes, errors) and a default-precision run written over the files of a full-precision run leaves the same files as a run into an empty directory. Non-trivial = >= 2 securities and >= 2 years with gains, or a row whose trade and settlement years differ, or a figure at a .xx5 midpoint. Distinct = distinct case content.");
     d.assumptions = vec!["full-precision cells are the figures --print-full-values prints; sums recomputed exactly from them"];
     d.subs.push(Box::new(Sub::<LedgerCase> { name: "totals", cases_quick: 24_000, cases_thorough: 400_000, strategy: Box::new(strategy), to_json: LedgerCase::to_json, from_json: LedgerCase::from_json, check }));
     d
